@@ -131,13 +131,42 @@ func runC19_2(c *Ctx) {
 	c.Check(ok, "unknown routes receive the raw body", p.Pos(bc.Pos()), "bindCall binds new([]byte) when the handler is the unknown handler", "bindCall no longer binds a raw []byte body for unknown routes: the proxy cannot pass the bytes through unchanged")
 }
 
+// proxyHost: the function that prepares the forwarded request for fn - fn itself, or the helper of the package
+// that every path of fn calls and that builds the WithAddMeta settings (extract-method tolerant).
+func proxyHost(p *Prog, fn *ssa.Function, withAddMeta *ssa.Global) *ssa.Function {
+	uses := func(f *ssa.Function) bool {
+		found := false
+		for _, g := range WithAnon(f) {
+			Instrs(g, func(i ssa.Instruction) {
+				if call, isC := i.(*ssa.Call); isC && IsLoadOfGlobal(call.Call.Value, withAddMeta) {
+					found = true
+				}
+			})
+		}
+		return found
+	}
+	if uses(fn) {
+		return fn
+	}
+	for _, call := range AllCalls(fn) {
+		h := call.Common().StaticCallee()
+		if _, isCall := call.(*ssa.Call); !isCall || h == nil || h.Pkg != fn.Pkg || len(h.Blocks) == 0 || !uses(h) {
+			continue
+		}
+		if all, _ := p.MustPassFromEntry(fn, func(i ssa.Instruction) bool { return i == ssa.Instruction(call) }, nil); all {
+			return h
+		}
+	}
+	return fn
+}
+
 func runC19_3(c *Ctx) {
 	p := c.P
 	callFn, pushFn := proxyFns(p)
 	withAddMeta := p.Global(Root, "WithAddMeta")
 	for _, fn := range []*ssa.Function{callFn, pushFn} {
 		ok := false
-		for _, a := range fn.AnonFuncs {
+		for _, a := range proxyHost(p, fn, withAddMeta).AnonFuncs {
 			// the VisitMeta callback appends WithAddMeta(string(key), string(value)) to the captured settings
 			Instrs(a, func(i ssa.Instruction) {
 				if call, isC := i.(*ssa.Call); isC && IsLoadOfGlobal(call.Call.Value, withAddMeta) {
@@ -180,7 +209,8 @@ func runC19_4(c *Ctx) {
 	callFn, pushFn := proxyFns(p)
 	withAddMeta := p.Global(Root, "WithAddMeta")
 	realIP := constStr(p, Root, "MetaRealIP")
-	for _, fn := range []*ssa.Function{callFn, pushFn} {
+	for _, top := range []*ssa.Function{callFn, pushFn} {
+		fn := proxyHost(p, top, withAddMeta)
 		var adds []ssa.Instruction
 		Instrs(fn, func(i ssa.Instruction) {
 			if call, isC := i.(*ssa.Call); isC && IsLoadOfGlobal(call.Call.Value, withAddMeta) {
@@ -211,7 +241,7 @@ func runC19_4(c *Ctx) {
 			}
 		}
 		c.fact("dominance")
-		c.Check(ok, "proxy."+fn.Name()+" adds the real IP iff absent", p.Pos(fn.Pos()), "WithAddMeta(MetaRealIP, ...) only on the len(PeekMeta(MetaRealIP)) == 0 edge", "proxy."+fn.Name()+" adds real-IP metadata although the request already carries it (or never adds it): the backend sees a wrong or duplicated client address")
+		c.Check(ok, "proxy."+top.Name()+" adds the real IP iff absent", p.Pos(top.Pos()), "WithAddMeta(MetaRealIP, ...) only on the len(PeekMeta(MetaRealIP)) == 0 edge", "proxy."+top.Name()+" adds real-IP metadata although the request already carries it (or never adds it): the backend sees a wrong or duplicated client address")
 	}
 }
 
